@@ -174,6 +174,7 @@ class Interp:
         self.package = package
         self.libs = libs                  # pwa.fakelibs.Libs
         self.modules = {}
+        self.instances = []
         self.stack = []                   # Frame stack
         self.events = []                  # effect events (writes, mutations, ...)
         self.findings = []                # Finding objects raised by the domain
@@ -906,6 +907,7 @@ class Interp:
         if cls.has_base('torch.autograd.Function'):
             raise AnalysisError('unknown-construct', 'direct instantiation of autograd Function at %s' % self.loc())
         inst = PyInstance(cls)
+        self.instances.append(inst)
         init = cls.lookup('__init__')
         if isinstance(init, PyFunc):
             self.call(BoundMethod(init, inst), args, kwargs)
